@@ -173,7 +173,322 @@ def sphere_rows():
     return rows
 
 
+# ----------------------------------------------------------------------------------------------------------------------
+# round 6: what the *source text* says (python `ast` on the current source; nothing is evaluated or interpreted here)
+
+SKETCH_CLASSES = [
+    "OneCoreDisk", "QuarterDisk", "HalfDisk", "FourCoreDisk", "WrappedDisk", "Oval", "Annulus",
+    "QuarterSplineDisk", "HalfSplineDisk", "SplineDisk", "QuarterSplineRing", "HalfSplineRing", "SplineRing", "MappedSketch", "Grid",
+]
+
+
+def _classes():
+    from classy_blocks.construct.flat.sketches import annulus, disk, grid, mapped, spline_round
+
+    out = {}
+    for mod in (disk, spline_round, annulus, mapped, grid):
+        for name in SKETCH_CLASSES + ["DiskBase"]:
+            if name in vars(mod) and getattr(vars(mod)[name], "__module__", None) == mod.__name__:
+                out[name] = vars(mod)[name]
+    return out
+
+
+def _fn_tree(fn):
+    import ast
+    import inspect
+    import textwrap
+
+    fn = getattr(fn, "fget", fn)
+    return ast.parse(textwrap.dedent(inspect.getsource(fn))).body[0]
+
+
+def _definer(cls, attr):
+    """the class in the MRO whose body defines `attr`"""
+    for k in cls.__mro__:
+        if attr in vars(k):
+            return k
+    return None
+
+
+def _row_spec(node):
+    """one row of a `grid` list expression as (kind, a, b, c); kind 9 = a form the model does not know"""
+    import ast
+
+    def nat(n):
+        return n.value if isinstance(n, ast.Constant) and isinstance(n.value, int) and n.value >= 0 else None
+
+    def is_faces(n):
+        return isinstance(n, ast.Attribute) and n.attr == "faces" and isinstance(n.value, ast.Name) and n.value.id == "self"
+
+    # self.faces / self.shell
+    if is_faces(node):
+        return (3, 0, 0, 0)
+    if isinstance(node, ast.Attribute) and node.attr == "shell" and isinstance(node.value, ast.Name) and node.value.id == "self":
+        return (4, 0, 0, 0)
+    # self.faces[a:b:c]   (None: start 0, stop 0 = "to the end" (otherwise stop + 1), step 1)
+    if isinstance(node, ast.Subscript) and is_faces(node.value) and isinstance(node.slice, ast.Slice):
+        sl = node.slice
+        lo = 0 if sl.lower is None else nat(sl.lower)
+        hi = 0 if sl.upper is None else (None if nat(sl.upper) is None else nat(sl.upper) + 1)
+        st = 1 if sl.step is None else nat(sl.step)
+        if None in (lo, hi, st) or st == 0:
+            return (9, 0, 0, 0)
+        return (0, lo, hi, st)
+    # [self.faces[a]]
+    if (isinstance(node, ast.List) and len(node.elts) == 1 and isinstance(node.elts[0], ast.Subscript)
+            and is_faces(node.elts[0].value) and nat(node.elts[0].slice) is not None):
+        return (1, nat(node.elts[0].slice), 0, 0)
+    # [face for i, face in enumerate(self.faces) if not i % m == r]
+    if isinstance(node, ast.ListComp) and len(node.generators) == 1:
+        g = node.generators[0]
+        try:
+            ok = (
+                isinstance(g.target, ast.Tuple) and [e.id for e in g.target.elts] == ["i", "face"]
+                and isinstance(node.elt, ast.Name) and node.elt.id == "face"
+                and isinstance(g.iter, ast.Call) and g.iter.func.id == "enumerate" and is_faces(g.iter.args[0])
+                and len(g.ifs) == 1 and isinstance(g.ifs[0], ast.UnaryOp) and isinstance(g.ifs[0].op, ast.Not)
+            )
+            cmp_ = g.ifs[0].operand
+            ok = ok and isinstance(cmp_, ast.Compare) and isinstance(cmp_.ops[0], ast.Eq) and isinstance(cmp_.left, ast.BinOp)
+            ok = ok and isinstance(cmp_.left.op, ast.Mod) and cmp_.left.left.id == "i"
+            m, r = nat(cmp_.left.right), nat(cmp_.comparators[0])
+            if ok and m and r is not None:
+                return (2, m, r, 0)
+        except AttributeError:
+            pass
+    return (9, 0, 0, 0)
+
+
+def grid_spec(cls):
+    """(defining class, guard, rows): `grid` returns the list `rows`; guard N > 0: only `if len(self.faces) > N`, else `super().grid`"""
+    import ast
+
+    k = _definer(cls, "grid")
+    body = [n for n in _fn_tree(vars(k)["grid"]).body if not (isinstance(n, ast.Expr) and isinstance(n.value, ast.Constant))]
+    bad = (k.__name__, 0, [(9, 0, 0, 0)])
+    if len(body) != 1:
+        return bad
+    st = body[0]
+    guard = 0
+    if isinstance(st, ast.If):
+        t = st.test
+        if not (isinstance(t, ast.Compare) and isinstance(t.ops[0], ast.Gt) and ast.unparse(t.left) == "len(self.faces)"
+                and isinstance(t.comparators[0], ast.Constant) and len(st.body) == 1 and len(st.orelse) == 1
+                and isinstance(st.orelse[0], ast.Return) and ast.unparse(st.orelse[0].value) == "super().grid"):
+            return bad
+        guard = t.comparators[0].value
+        st = st.body[0]
+    if not (isinstance(st, ast.Return) and isinstance(st.value, ast.List)):
+        if isinstance(st, ast.Return) and ast.unparse(st.value) == "self._grid":
+            return (k.__name__, guard, [(5, 0, 0, 0)])  # Grid: the list its constructor filled
+        return bad
+    return (k.__name__, guard, [_row_spec(e) for e in st.value.elts])
+
+
+def quad_map(cls):
+    """the literal assigned to `quad_map` in the class's own `__init__` (None if there is none)"""
+    import ast
+
+    if "__init__" not in vars(cls):
+        return None
+    for n in ast.walk(_fn_tree(vars(cls)["__init__"])):
+        if isinstance(n, ast.Assign) and len(n.targets) == 1 and isinstance(n.targets[0], ast.Name) and n.targets[0].id == "quad_map":
+            try:
+                return [list(q) for q in ast.literal_eval(n.value)]
+            except ValueError:
+                return None
+    return None
+
+
+def merge_spec(cls):
+    """`self.merge(x)` in the class's own `__init__`: what x is — ("cls", Name) for `x = Name(…)`, ("self", "") for
+    `x = self.copy()…`; None if `__init__` merges nothing"""
+    import ast
+
+    if "__init__" not in vars(cls):
+        return None
+    tree = _fn_tree(vars(cls)["__init__"])
+    assigns = {n.targets[0].id: n.value for n in ast.walk(tree)
+               if isinstance(n, ast.Assign) and len(n.targets) == 1 and isinstance(n.targets[0], ast.Name)}
+    for n in ast.walk(tree):
+        if isinstance(n, ast.Call) and ast.unparse(n.func) == "self.merge" and len(n.args) == 1 and isinstance(n.args[0], ast.Name):
+            v = assigns.get(n.args[0].id)
+            if isinstance(v, ast.Call) and isinstance(v.func, ast.Name):
+                return ("cls", v.func.id)
+            if v is not None and ast.unparse(v).startswith("self.copy()"):
+                return ("self", "")
+            return ("?", "")
+    return None
+
+
+def returns(cls, attr):
+    """the unparsed expression of a method / property whose body is one `return`"""
+    import ast
+
+    k = _definer(cls, attr)
+    if k is None:
+        return "<undefined>"
+    body = [n for n in _fn_tree(vars(k)[attr]).body if not (isinstance(n, ast.Expr) and isinstance(n.value, ast.Constant))]
+    if len(body) == 1 and isinstance(body[0], ast.Return):
+        return ast.unparse(body[0].value) if body[0].value is not None else "None"
+    return "<not a single return>"
+
+
+def slice_spec():
+    """the branches of `Stack.get_slice` after its guards: (axis tested — 99 for `else` —, [element expression with the
+    comprehension variable written `loop`, iterated expression])"""
+    import ast
+
+    from classy_blocks.construct.stack import Stack
+
+    tree = _fn_tree(Stack.get_slice)
+    out = []
+
+    def axis_of(test):
+        if isinstance(test, ast.Compare) and isinstance(test.ops[0], ast.Eq) and ast.unparse(test.left) == "axis" \
+                and isinstance(test.comparators[0], ast.Constant):
+            return test.comparators[0].value
+        return None
+
+    def comp(stmts):
+        # for shape in self.shapes: operations += [<elt> for <v> in <iter>]
+        if len(stmts) == 1 and isinstance(stmts[0], ast.For) and ast.unparse(stmts[0].iter) == "self.shapes" \
+                and ast.unparse(stmts[0].target) == "shape" and len(stmts[0].body) == 1:
+            a = stmts[0].body[0]
+            if isinstance(a, ast.AugAssign) and isinstance(a.op, ast.Add) and ast.unparse(a.target) == "operations" \
+                    and isinstance(a.value, ast.ListComp) and len(a.value.generators) == 1 and not a.value.generators[0].ifs:
+                g = a.value.generators[0]
+                var = ast.unparse(g.target)
+
+                class Ren(ast.NodeTransformer):
+                    def visit_Name(self, n):
+                        return ast.copy_location(ast.Name(id="loop", ctx=n.ctx), n) if n.id == var else n
+
+                return [ast.unparse(Ren().visit(a.value.elt)), ast.unparse(g.iter)]
+        return ["?", "?"]
+
+    for st in tree.body:
+        if isinstance(st, ast.If) and axis_of(st.test) is not None and isinstance(st.body[0], ast.Return):
+            out.append((axis_of(st.test), [ast.unparse(st.body[0].value)]))
+        elif isinstance(st, ast.If) and axis_of(st.test) is not None:
+            out.append((axis_of(st.test), comp(st.body)))
+            out.append((99, comp(st.orelse)))
+    return out
+
+
+def stack_chop_spec():
+    """`Stack.chop`: `for shape in self.shapes: shape.grid[a][b].chop(axis, **kwargs)` -> [a, b, axis] ([] if it reads otherwise)"""
+    import ast
+
+    from classy_blocks.construct.stack import Stack
+
+    body = [n for n in _fn_tree(Stack.chop).body if not (isinstance(n, ast.Expr) and isinstance(n.value, ast.Constant))]
+    try:
+        loop = body[0]
+        call = loop.body[0].value
+        sub = call.func.value  # shape.grid[a][b]
+        if (len(body) == 1 and isinstance(loop, ast.For) and ast.unparse(loop.iter) == "self.shapes" and len(loop.body) == 1
+                and call.func.attr == "chop" and ast.unparse(sub.value.value) == "shape.grid"):
+            return [sub.value.slice.value, sub.slice.value, call.args[0].value]
+    except (AttributeError, IndexError):
+        pass
+    return []
+
+
+def grid_init_spec():
+    """`Grid.__init__`: the two loops (variable, count argument) outer first; the coordinates arrays (name, component of the
+    corner points, count argument); the four points of a face ((x array, loop variable, offset), (y array, variable, offset))"""
+    import ast
+
+    from classy_blocks.construct.flat.sketches.grid import Grid
+
+    tree = _fn_tree(Grid.__init__)
+    coords = []
+    for n in ast.walk(tree):
+        if isinstance(n, ast.Assign) and isinstance(n.value, ast.Call) and ast.unparse(n.value.func) == "np.linspace":
+            c = n.value
+            num = [k.value for k in c.keywords if k.arg == "num"]
+            a, b = c.args[0], c.args[1]
+            if (len(num) == 1 and isinstance(num[0], ast.BinOp) and isinstance(num[0].op, ast.Add) and ast.unparse(num[0].right) == "1"
+                    and ast.unparse(a.value) == "point_1" and ast.unparse(b.value) == "point_2"
+                    and ast.unparse(a.slice) == ast.unparse(b.slice) and len(c.keywords) == 1):
+                coords.append((n.targets[0].id, int(ast.unparse(a.slice)), ast.unparse(num[0].left)))
+            else:
+                coords.append((n.targets[0].id, 99, ast.unparse(n.value)))
+    loops, points = [], []
+
+    def idx(e):
+        # coords_1[ix] / coords_1[ix + 1]
+        s = e.slice
+        if isinstance(s, ast.Name):
+            return (ast.unparse(e.value), s.id, 0)
+        if isinstance(s, ast.BinOp) and isinstance(s.op, ast.Add) and isinstance(s.left, ast.Name) and isinstance(s.right, ast.Constant):
+            return (ast.unparse(e.value), s.left.id, s.right.value)
+        return (ast.unparse(e), "?", 99)
+
+    def walk_for(node):
+        for st in node.body:
+            if isinstance(st, ast.For):
+                arg = ast.unparse(st.iter.args[0]) if isinstance(st.iter, ast.Call) and ast.unparse(st.iter.func) == "range" and len(st.iter.args) == 1 else "?"
+                loops.append((ast.unparse(st.target), arg))
+                walk_for(st)
+            elif isinstance(st, ast.Assign) and ast.unparse(st.targets[0]) == "points" and isinstance(st.value, ast.List):
+                for p in st.value.elts:
+                    if isinstance(p, ast.List) and len(p.elts) == 3 and ast.unparse(p.elts[2]) == "0" \
+                            and isinstance(p.elts[0], ast.Subscript) and isinstance(p.elts[1], ast.Subscript):
+                        points.append((idx(p.elts[0]), idx(p.elts[1])))
+                    else:
+                        points.append((("?", "?", 99), ("?", "?", 99)))
+
+    walk_for(tree)
+    return loops, coords, points
+
+
+def emit_source(emit) -> None:
+    from classy_blocks.construct.shape import LoftedShape
+    from classy_blocks.construct.shapes.round import RoundHollowShape, RoundSolidShape
+    from classy_blocks.construct.stack import Stack
+
+    cl = _classes()
+    names = [n for n in SKETCH_CLASSES if n in cl]
+    emit("c19QuadMaps", "List (String × List (List Nat))", [(n, quad_map(cl[n])) for n in names if quad_map(cl[n]) is not None],
+         "the `quad_map` literal in the class's own __init__ (ast)")
+    emit("c19GridSpecs", "List (String × String × Nat × List (Nat × Nat × Nat × Nat))", [(n, *grid_spec(cl[n])) for n in names],
+         "the `grid` property: (class, class that defines it, guard N of `if len(self.faces) > N … else super().grid` or 0, rows); "
+         "row (0,a,b,c) = self.faces[a:b-1:c] (b = 0: to the end), (1,a,_,_) = [self.faces[a]], (2,m,r,_) = faces with index % m != r, "
+         "(3,…) = self.faces, (4,…) = self.shell, (5,…) = self._grid, (9,…) = anything else")
+    emit("c19Parents", "List (String × String)", [(n, cl[n].__mro__[1].__name__) for n in names], "direct base class")
+    emit("c19Merges", "List (String × String × String)",
+         [(n, *merge_spec(cl[n])) for n in names if merge_spec(cl[n]) is not None],
+         "`self.merge(x)` in the class's own __init__ after `super().__init__`: x is an instance of (\"cls\", Name) or a copy of self")
+    pins = []
+    for n in names:
+        for attr in ("core", "shell", "faces"):
+            k = _definer(cl[n], attr)
+            if k is None:
+                continue
+            if isinstance(vars(k)[attr], property):
+                pins.append((f"{n}.{attr}", k.__name__, returns(cl[n], attr)))
+            else:
+                pins.append((f"{n}.{attr}", k.__name__, "<attribute>"))
+    for k, attr in ((RoundSolidShape, "core"), (RoundSolidShape, "shell"), (RoundHollowShape, "shell"), (LoftedShape, "operations"),
+                    (LoftedShape, "grid"), (Stack, "grid"), (Stack, "operations")):
+        pins.append((f"{k.__name__}.{attr}", _definer(k, attr).__name__, returns(k, attr)))
+    emit("c19Returns", "List (String × String × String)", pins,
+         "(what, defining class, the expression its single `return` statement returns)")
+    emit("c19SliceSpec", "List (Nat × List String)", slice_spec(), "the branches of Stack.get_slice after the guards")
+    emit("c19StackChop", "List Nat", stack_chop_spec(), "Stack.chop: shape.grid[a][b].chop(axis): [a, b, axis]")
+    loops, coords, points = grid_init_spec()
+    emit("c19GridLoops", "List (String × String)", loops, "Grid.__init__: (loop variable, argument of range), outer loop first")
+    emit("c19GridCoords", "List (String × Nat × String)", coords, "Grid.__init__: name = np.linspace(point_1[c], point_2[c], num=<count> + 1)")
+    emit("c19GridPoints", "List ((String × String × Nat) × (String × String × Nat))", points,
+         "Grid.__init__: the points of a face: ((x array, index variable, offset), (y array, index variable, offset)), z = 0")
+    emit("c19Chops", "List (String × List (List Nat))", [(n, [list(c) for c in cl[n].chops]) for n in names],
+         "Sketch.chops of the class (indexes into shape.operations for axis 0 and axis 1)")
+
+
 def emit_all(emit) -> None:
+    emit_source(emit)
     sk_rows = [sketch_row(n, sk, seg) for n, sk, seg in sketch_probes()]
     emit(
         "c19Sketches",
